@@ -508,6 +508,55 @@ func C19(p *ir.Program, r *report.R) {
 		r.Check("K5", "iterator-source/sites", "-", n >= 6, fmt.Sprintf("%d backend iterator creations inspected (confirmed by hand: 3 + 3)", n))
 	}
 
+	// ---- the view's prefix is never appended to in place --------------------------------------------------------------
+	// Every key and bound of a prefixed view is prefix ++ x built on a fresh copy of the prefix. An
+	// `append(prefix, x...)` on the view's own slice (directly, or inside a helper that is handed the slice)
+	// reuses its spare capacity: the second bound overwrites the first (pstart and pend of one iterator).
+	{
+		var bad []string
+		nApp := 0
+		for _, f := range p.Funcs {
+			if f.Pkg == nil || ir.RelPkg(f.Pkg.Pkg) != "libs/db" || f.Blocks == nil || !strings.HasSuffix(fileOf(p, ir.EnclosingTop(f)), "prefix_db.go") {
+				continue
+			}
+			ir.Instrs(f, func(in ssa.Instruction) {
+				call, ok := in.(*ssa.Call)
+				if !ok {
+					return
+				}
+				if bi, isB := call.Call.Value.(*ssa.Builtin); !isB || bi.Name() != "append" || len(call.Call.Args) != 2 {
+					return
+				}
+				nApp++
+				dst := call.Call.Args[0]
+				var srcs []string
+				if q, isP := dst.(*ssa.Parameter); isP {
+					idx := -1
+					for i, x := range f.Params {
+						if x == q {
+							idx = i
+						}
+					}
+					if fo, _ := f.Object().(*types.Func); fo != nil && idx >= 0 {
+						for _, cs := range p.CallSites(fo) {
+							if a := cs.Instr.Common().Args; idx < len(a) {
+								srcs = append(srcs, ir.Render(a[idx]))
+							}
+						}
+					}
+				} else {
+					srcs = []string{ir.Render(dst)}
+				}
+				for _, sname := range srcs {
+					if strings.HasSuffix(sname, ".prefix") || sname == "prefix" {
+						bad = append(bad, p.InstrPos(in)+": append onto "+sname)
+					}
+				}
+			})
+		}
+		r.Check("K4", "db.prefix/never-appended-in-place", "-", len(bad) == 0 && nApp >= 3, fmt.Sprintf("%d appends in prefix_db.go, none onto a view's own prefix slice: %v", nApp, bad))
+	}
+
 	// ---- a batch is applied in the order it was queued --------------------------------------------------------
 	// "set k=1; delete k; set k=2" must end with k=2: the write paths replay the queued operations in
 	// queue order. No write path sorts them (sort.Slice / sort.Sort are not stable: two operations on the
@@ -816,8 +865,10 @@ var _ = report.Discharged
 // prefixPlusKey: v is `append(<copy of prefix>, key...)`, written in place or returned by a function
 // of the package (read with the call's arguments in place of its parameters).
 func prefixPlusKey(v ssa.Value, prefix string) bool {
+	// (the prefix operand is a COPY: appending to the view's own prefix slice writes into its spare
+	// capacity, where the previous key built the same way still lives)
 	is := func(s string) bool {
-		return strings.HasPrefix(s, "append(") && strings.Contains(s, prefix) && strings.HasSuffix(s, ",key)") && !strings.Contains(s, "[")
+		return strings.HasPrefix(s, "append(db.cp(") && strings.Contains(s, prefix) && strings.HasSuffix(s, ",key)") && !strings.Contains(s, "[")
 	}
 	if is(ir.Render(v)) {
 		return true
